@@ -75,6 +75,7 @@ def run(tier: str, seed: int) -> int:
     rep.extra["tlc_property_PositiveFinite"] = {
         h: {"violated": (not model["prop"][h].ok), "counterexample": model["cex"][h]} for h in ("dt0", "dt0_adaptive")
     }
+    rep.extra["spec_transcribes"] = {"VERIF_C18_CODE": H._CODE, **H.CODE_CONSTS}
     rep.extra["model_tuples_exported"] = len(rel)
     rep.extra["model_tuples_violating_PositiveFinite"] = sum(1 for v in rel.values() if not v["ok"])
 
